@@ -526,6 +526,9 @@ fn run_window(total: usize, with_token: bool, many: bool, shape: &str) -> Outcom
     // `total` UTxOs at A. last-covers / first-covers: exactly one (the last / first in ref order) can cover the request;
     // all-needed: every one holds 1 lovelace (one of them also the token) and the request is for all of it, so a
     // `many` selection has to be offered the whole window
+    if shape == "foreign-holders" {
+        return run_foreign_holders(total, many);
+    }
     let t = if with_token { 1 } else { 0 };
     let (special, plain, want) = if shape == "all-needed" { ([1, t, 0], [1, 0, 0], total as i128) } else { ([5, t, 0], [1, 0, 0], 5) };
     let at = if shape == "first-covers" { 0 } else { total - 1 };
@@ -561,6 +564,33 @@ fn run_window(total: usize, with_token: bool, many: bool, shape: &str) -> Outcom
     o
 }
 
+/// `total - 2` holders of the token at the other address, all sorting before the two UTxOs at A (one with the token
+/// and a little lovelace, one with the lovelace the request needs): the candidates of `from A` are those two, however
+/// many holders there are elsewhere
+fn run_foreign_holders(total: usize, many: bool) -> Outcome {
+    let mut cs: Vec<Content> = (0..total - 2).map(|_| Content { addr: 1, amt: [3, 1, 0] }).collect();
+    cs.push(Content { addr: 0, amt: [2, 1, 0] });
+    cs.push(Content { addr: 0, amt: [100, 0, 0] });
+    let mut o = Outcome::default();
+    for want in [[Some(50), Some(1), None], [Some(2), Some(1), None], [Some(100), None, None]] {
+        let q = Query { address: Some(0), refs: vec![], min: Some(want), many, collateral: false };
+        for rep in 0..4 {
+            let utxos = cs.iter().enumerate().map(|(i, c)| tirb::utxo(ref_at(i), &addr(c.addr), assets_of(&c.amt))).collect();
+            let store = MemStore::new(utxos);
+            let sel = run_query(&store, &q);
+            o.evals += 1;
+            let mut vs = vec![];
+            let class = judge(&cs, &q, &[], &sel, &mut vs);
+            o.class(format!("window-{class}"));
+            for (sig, what) in vs {
+                o.violate(Violation::new(format!("{sig}|window-foreign-holders"), what));
+            }
+            o.key(hash64(&("foreign", total, many, want, rep)));
+        }
+    }
+    o
+}
+
 impl Prop for C03 {
     fn id(&self) -> &'static str {
         "C03"
@@ -571,7 +601,7 @@ impl Prop for C03 {
             "complete product: every multiset store of <= n UTxO contents (address in {{A,B}} x lovelace x T1 x T2) x every query \
              (from in {{none,A,B}} x ref in {{none, each stored ref, dangling, 2 multi-ref sets}} x min_amount over lovelace/T1/T2 incl. absent and 0 \
              x single/many x input/collateral) through tx3_resolver::inputs::resolve; alphabets: {:?}; every iteration order of the candidate set \
-             is enumerated for stores with identical contents (thorough: for every store); window stores of 49/50/51 UTxOs (the one covering UTxO first or last in ref order, or all of them needed). Non-trivial = the resolver \
+             is enumerated for stores with identical contents (thorough: for every store); window stores of 49/50/51 UTxOs (the one covering UTxO first or last in ref order, or all of them needed; 0..120 holders of the requested token at another address sorting before the two candidates). Non-trivial = the resolver \
              returned and the specification predicate was evaluated; distinct = distinct (alphabet, store multiset, query).",
             alphas(tier).iter().map(|a| format!("{}: lov<={} t1<={} t2<={} n<={} x{}", a.name, a.lov, a.t1, a.t2, a.n, a.scale)).collect::<Vec<_>>()
         )
@@ -598,6 +628,11 @@ impl Prop for C03 {
                 multisets(m, k, &mut cur, 0, &mut |idxs| {
                     sink.case(|| json!({"kind": "store", "alpha": a.name, "contents": idxs, "all_orders": tier.is_thorough() && k <= 3}));
                 });
+            }
+        }
+        for holders in [0usize, 1, 47, 48, 49, 50, 60, 120] {
+            for many in [false, true] {
+                sink.case(|| json!({"kind": "window", "total": holders + 2, "with_token": true, "many": many, "shape": "foreign-holders"}));
             }
         }
         for total in [49usize, 50, 51] {
